@@ -137,6 +137,38 @@ def run(ctx):
         ctx.count()
         if got != rep['prereq']: ctx.disagree('hypotest.prerequisites', {'poi_index': model.config.poi_index, 'fixed': fixed}, rep['prereq'], got)
         if got != want: ctx.fail('C08/refusal', 'hypotest not refused without POI / with fixed POI', {'fixed': fixed}, got, want)
+    # ---------------- the numbers do not depend on which extras are requested (both calculators; toys on a fixed random stream):
+    # the observed value, the tail probabilities, the median and the band are the same whatever else is asked for, and the median is
+    # the central entry of the band
+    import itertools
+    for calctype, ts, kw in [('asymptotics', 'qtilde', {}), ('asymptotics', 'q0', {}), ('toybased', 'qtilde', {'ntoys': 60, 'track_progress': False}),
+                             ('toybased', 'q', {'ntoys': 41, 'track_progress': False})]:
+        mu_t = 0.0 if ts == 'q0' else rng.choice([0.7, 1.0, 1.6])
+        dat = [float(rng.randint(45, 62))] + m.config.auxdata
+        seen = {}
+        for flags in itertools.product([False, True], repeat=3):
+            tp, ex, es = flags
+            np.random.seed(1234)
+            try:
+                res = pyhf.infer.hypotest(mu_t, dat, m, calctype=calctype, test_stat=ts, return_tail_probs=tp, return_expected=ex, return_expected_set=es, **kw)
+            except Exception as e:  # noqa
+                ctx.fail('C08/hypotest-raised', f'hypotest raised {type(e).__name__}', {'calctype': calctype, 'test_stat': ts, 'flags': flags, 'mu': mu_t, 'data': dat}, str(e)[:200]); continue
+            ctx.count()
+            parts = list(res) if (tp or ex or es) else [res]
+            got = {'main': float(np.asarray(parts.pop(0)))}
+            if tp: got['tails'] = [float(np.asarray(x)) for x in parts.pop(0)]
+            if ex: got['median'] = float(np.asarray(parts.pop(0)))
+            if es: got['band'] = [float(np.asarray(x)) for x in parts.pop(0)]
+            inp = {'calctype': calctype, 'test_stat': ts, 'mu': mu_t, 'data': dat, 'flags(tail,expected,expected_set)': flags, 'numpy_seed': 1234, **kw}
+            for k_, v in got.items():
+                if k_ in seen and seen[k_][0] != v:
+                    ctx.fail(f'C08/value-depends-on-flags/{calctype}', f'the returned {k_} depends on which other quantities are requested', dict(inp, other_flags=seen[k_][1]), v, seen[k_][0])
+                seen.setdefault(k_, (v, flags))
+            if 'median' in got and 'band' in got and got['median'] != got['band'][2]:
+                ctx.fail(f'C08/median-not-band-centre/{calctype}', 'the median expected value is not the central entry of the expected band', inp, got['median'], got['band'])
+        if 'median' in seen and 'band' in seen and seen['median'][0] != seen['band'][0][2]:
+            ctx.fail(f'C08/median-not-band-centre/{calctype}', 'the median expected value (requested alone) is not the central entry of the expected band (requested alone)',
+                     {'calctype': calctype, 'test_stat': ts, 'mu': mu_t, 'data': dat, 'numpy_seed': 1234, **kw}, seen['median'][0], seen['band'][0])
     # ---------------- toy-based layout (small ntoys)
     for flags in [(False, False, False, False), (True, False, False, True), (True, True, True, False)]:
         tp, ex, es, ca = flags
